@@ -41,6 +41,10 @@ type vfC12Task struct {
 }
 
 func vfC12(w *vfWorld) {
+	if w.variant == "race" {
+		vfFreeRun(w, "C12")
+		return
+	}
 	t := w.tape
 	cfg := vfDefaultCfg()
 	cs := &vfC12Case{}
